@@ -70,10 +70,10 @@ def dynamic_part(run, tier, scr):
         dyn["modules"] = [m["name"] for m, _, _ in mods]
         root = os.path.join(scr, "c19dyn")
         unreached = None
-        for (tag, opts, xc, tiers) in U.VARIANTS:
+        for (tag, opts, xc, tiers, skip_rx) in U.VARIANTS:
             if tier not in tiers:
                 continue
-            v = U.build_variant(asn1c, skel, root, tag, opts, xc, mods)
+            v = U.build_variant(asn1c, skel, root, tag, opts, xc, mods, skip_rx)
             types = U.list_types(v)
             run.count("dyn:programs(objects in image)", v["nfiles"])
             for t in types:
@@ -326,8 +326,8 @@ def main(tier):
                        "descr_unchanged is tied by testing, not proved: the read-only image detector sees every store executed by the battery "
                        "(all types of %s under the listed asn1c option sets, valid + damaged inputs); a store on a path the battery does not "
                        "execute is not seen - `unreached_functions_all_variants` lists the library functions never entered" % ", ".join(dyn.get("modules") or []),
-                       "not exercised: failing output callbacks (unchanged library asserts: C07), damaged inputs of types holding an open type "
-                       "(C18-opentype-null-specifics), compare with a NULL operand (BIT_STRING_compare crashes), ber_tlv_tag_string / asn_bit_data_string "
+                       "not exercised: failing output callbacks (unchanged library asserts: C07), OER encoding of values that fail their own constraint check "
+                       "(BIT_STRING_encode_oer padding loop never terminates: C07), compare with a NULL operand (BIT_STRING_compare crashes), ber_tlv_tag_string / asn_bit_data_string "
                        "(documented static-buffer debug helpers), -DASN_DEBUG builds",
                        "random() is replaced by a thread-local generator in the harness: asn_random_fill's use of libc's shared random state is outside the property",
                        "TSan suppressions (harness/c19_tsan.supp): glibc's tz state behind its internal tzset_lock, reached through mktime()"],
